@@ -54,7 +54,12 @@ def comment_kind(g):
     cm = [r for r in g if r[0] == "Comment"]
     if not cm:
         return None
-    return "line" if "#" in cm[0][2][1] else "block"
+    body = cm[0][2]
+    if body[0] == "ref":
+        return "line"
+    if body[0] == "alt":
+        return "line"
+    return "line" if "#" in body[1] else "block"
 
 
 def work(arg):
@@ -92,6 +97,17 @@ def families(tier):
     for label, g in gramgen.frules("quick", gramgen.WS_SETS):
         if any(r[1] for r in g) and not any(r[0] == "Comment" for r in g):
             yield label + "|ws-sets", g, [{}]
+    # the Comment rule written as a reference to another rule, and as a choice of two referenced rules
+    RE, REF, ALT = gramgen.RE, gramgen.REF, gramgen.ALT
+    cl, cb = ("CL", {}, gramgen.COMMENTS["line"][2]), ("CB", {}, gramgen.COMMENTS["block"][2])
+    k = 0
+    for label, g in gramgen.frules("quick"):
+        if any(r[0] == "Comment" and "#" in r[2][1] for r in g):
+            k += 1
+            if k % 3 == 0:
+                yield label + "|comment-ref", [("Comment", {}, REF("CL")) if r[0] == "Comment" else r for r in g] + [cl], [{}]
+            elif k % 3 == 1:
+                yield label + "|comment-refs", [("Comment", {}, ALT(REF("CL"), REF("CB"))) if r[0] == "Comment" else r for r in g] + [cl, cb], [{}]
     # small expression grammars with a Comment rule and repetition modifiers
     for size in ((1, 2) if tier == "quick" else (1, 2, 3)):
         for b in gramgen.bodies("quick", size):
